@@ -11,6 +11,7 @@ mod term;
 mod sandbox;
 mod unify;
 mod bip;
+mod lists;
 
 use serde_json::Value;
 
@@ -35,6 +36,7 @@ pub fn props_of(case: &Value) -> Vec<&'static str> {
     match case["t"].as_str().unwrap_or("") {
         "unify" => unify::props_of(case),
         "bip" => bip::props_of(case),
+        "mklist" | "rename" => lists::props_of(case),
         _ => vec![],
     }
 }
@@ -44,6 +46,8 @@ pub fn run_case(case: &Value) -> Vec<Obs> {
     match case["t"].as_str().unwrap_or("") {
         "unify" => unify::replay(case),
         "bip" => bip::replay(case),
+        "mklist" => lists::replay_mklist(case),
+        "rename" => lists::replay_rename(case),
         "atoms" => bip::check_atoms(case),
         other => vec![Obs::bad("TOOL", "unknown-case-type", other.to_string())],
     }
